@@ -64,7 +64,7 @@ API (import as `from harness.lib import turnrig as TR`)
     state       {"version_etag", "boot_loaded", "snap_files": sorted dir listing, "snap_body": parsed
                  {version_etag, applied, turn} of state_<agent>.json if readable, "cache_keys": sorted repr of
                  live cache keys per namespace, "store_w": sorted weight map, "mem_n": #episodes,
-                 "gel_edges": sorted edge ids, "logs_n": len(state["logs"])}
+                 "gel_edges": sorted edge ids, "gel": sorted [edge id, weight], "logs_n": len(state["logs"])}
 Canonicalisation: volatile keys (`ms*`, `durations_ms`) dropped, `snapshot` path -> basename, floats kept.
 `CANON_STREAMS = ("t1","t2","t4","apply","turn")` are the streams C20/C01 talk about.
 """
@@ -719,6 +719,11 @@ def observe_state(w: World) -> Dict[str, Any]:
         out["mem_n"] = None
     g = st.get("graph")
     out["gel_edges"] = sorted(map(str, (g.get("edges") or {}).keys())) if isinstance(g, dict) else None
+    try:
+        out["gel"] = sorted([str(k), (v.get("weight") if isinstance(v, dict) else repr(v))]
+                            for k, v in (g.get("edges") or {}).items()) if isinstance(g, dict) else None
+    except Exception:
+        out["gel"] = "unreadable"
     out["logs_n"] = len(st["logs"]) if isinstance(st.get("logs"), list) else None
     return json.loads(json.dumps(out, default=repr))
 
